@@ -215,7 +215,7 @@ def build_harness(ck):
     jobs += [("u_%s.o" % n, vlib.REPO + "/src/Utilities/%s.cxx" % n) for n in UTIL_SOURCES]
     jobs.append(("h_main.o", "C47/harness.cxx"))
     inc = [vlib.REPO + "/mfront/include", vlib.BUILD + "/mfront/include"]
-    with ThreadPoolExecutor(max_workers=3) as ex:
+    with ThreadPoolExecutor(max_workers=2) as ex:
         futs = [ex.submit(ck.cxx, name, [src], flags=["-c"], sanitize=True, includes=inc) for name, src in jobs]
         objs = [f.result() for f in futs]
     return ck.cxx("c47h", [], libs=objs + ck.libflags(*LIBS), sanitize=True)
